@@ -40,6 +40,9 @@ namespace pgm {
  */
 template<typename K, typename V, typename PGMType = PGMIndex<K, 16>>
 class DynamicPGMIndex {
+#ifdef PGM_INDEX_VERIF
+    friend struct ::pgm::verif::Access;
+#endif
     class ItemA;
     class ItemB;
     class Iterator;
